@@ -89,7 +89,7 @@ def parse(path):
                     cur["at"].append([int(ml.group(2)), buf, ml.group(1)])
                     target = buf
                     continue
-                mm = re.match(r'^(before|after)\s+"((?:[^"\\]|\\.)*)"\s*:\s*(.*)$', rest)
+                mm = re.match(r'^(before_last|before|after)\s+"((?:[^"\\]|\\.)*)"\s*:\s*(.*)$', rest)
                 if not mm: raise SpecError(f"{path}:{ln}: bad at")
                 buf = [mm.group(3)] if mm.group(3) else []
                 cur["at"].append([mm.group(2).encode().decode("unicode_escape"), buf, mm.group(1)])
